@@ -72,6 +72,7 @@ class Verifier(ExprMixin, StmtMixin, CallMixin, LibMixin, SpecMixin):
         self.timeout_ms = timeout_ms
         self._spec_cache = {}
         self._mut_cache = {}
+        self.abstract_macros = set()
         self.inline_ok = set()
 
     # ------------------------------------------------------------ source
@@ -373,6 +374,7 @@ class Verifier(ExprMixin, StmtMixin, CallMixin, LibMixin, SpecMixin):
         self.degraded = False
         self.segment_loop_id = None
         self.sym_consts = {}
+        self.abstract_macros = set(self.contract.get("abstract_macros") or [])
         res = dict(function=qn, variant=variant, error=None)
         try:
             mod, fdef = self.lookup_function(qn)
